@@ -8,8 +8,8 @@
    Gen_spherical).
      rfv_d_mono            : radius_from_volume is monotone on non-negative volumes (d = 1, 2, 3);
      located_radius_le_rho : n * prod h <= prod (2 r + h)  ->  r' <= rho_d(r);
-                             the counting premise is the D-layer fact ball_count_bound below
-                             (Q arithmetic: |B| * prod h <= prod (2 r + h), from the row lemmas);
+                             the counting premise is the D-layer theorem Proofs/BallCount.ball_count_bound
+                             (over Q: |B| * prod h <= prod (2 r + h), proved from the row lemmas);
      dist_triangle         : triangle inequality of the Euclidean distance on lists of reals of equal
                              length (any dimension), from Cauchy-Schwarz;
      near_dist             : |l_k - c_k| <= h_k / 2 for all k  ->  dist l c <= |h| / 2;
@@ -264,9 +264,9 @@ Proof.
   split; [simpl; repeat split; apply Hab; split; lra|].
   split; [simpl; repeat split; apply Hab; split; lra|].
   split; [lra|]. split; [lra|].
-  (* rho = sqrt (9 / PI) < 2 since PI > 3;  |h| = sqrt 2 < 2;  distance = 10 *)
-  assert (Hrho : rfv_scalar_2 ((2 * 1 + 1) * (2 * 1 + 1)) <= 2).
-  { unfold rfv_scalar_2. pose proof PI_pos as HP. assert (H3 : 3 < PI) by (pose proof PI_4; lra).
+  (* rho = sqrt (9 / PI) <= 3 since PI > 2;  |h| = sqrt 2 < 2;  distance = 10 *)
+  assert (Hrho : rfv_scalar_2 ((2 * 1 + 1) * (2 * 1 + 1)) <= 3).
+  { unfold rfv_scalar_2. pose proof PI_pos as HP. assert (H2 : 2 < PI) by (pose proof PI2_1; lra).
     apply sqrt_le_bound; [|lra|].
     - apply Rmult_le_pos; [lra|left; apply Rinv_0_lt_compat; exact HP].
     - apply (Rmult_le_reg_r PI); [exact HP|]. unfold Rdiv. rewrite Rmult_assoc, Rinv_l by lra. lra. }
